@@ -67,7 +67,8 @@ fn option_prefix() -> impl Strategy<Value = String> {
 fn wide_prog() -> impl Strategy<Value = String> {
     // many branches with a few steps: exercises every per-branch / per-step name
     // (two-digit branch counts in a third of them: positional names and indices of 10 and above)
-    (prop_oneof![2 => 1usize..12, 1 => 10usize..27], proptest::collection::vec((0usize..4, 0usize..3), 27), proptest::option::weighted(0.3, 0usize..3)).prop_map(|(n, shape, h)| {
+    // (and a few very wide / long ones: more than 64 distinct positional names in one expansion)
+    (prop_oneof![4 => 1usize..12, 2 => 10usize..27, 1 => 27usize..44], proptest::collection::vec((prop_oneof![3 => 0usize..4, 1 => 4usize..9], 0usize..3), 44), proptest::option::weighted(0.3, 0usize..3)).prop_map(|(n, shape, h)| {
         let mut parts = Vec::new();
         for b in 0..n {
             let (steps, extra) = shape[b];
@@ -88,9 +89,10 @@ fn wide_prog() -> impl Strategy<Value = String> {
 }
 
 fn input() -> impl Strategy<Value = String> {
-    // (a fifth of the pool is not a valid program at all: token soups of the C15 vocabulary - whatever a
+    // (a third of the pool is not a plain valid program: token soups of the C15 vocabulary, single-fault
+    // mutations of valid programs, valid programs with a stray `~` - whatever a
     // rejected or odd invocation leaves behind must not reach the next expansion)
-    (option_prefix(), prop_oneof![2 => c14::sprog().prop_map(|p| p.render()), 2 => wide_prog(), 1 => crate::c15::soup()]).prop_map(|(o, p)| if o.is_empty() { p } else { format!("{} {}", o, p) })
+    (option_prefix(), prop_oneof![2 => c14::sprog().prop_map(|p| p.render()), 2 => wide_prog(), 1 => crate::c15::soup(), 1 => crate::c15::faulty()]).prop_map(|(o, p)| if o.is_empty() { p } else { format!("{} {}", o, p) })
 }
 
 pub fn history() -> impl Strategy<Value = History> {
@@ -255,7 +257,7 @@ pub fn run(tier: &str, seed: u64) -> i32 {
     let mut ev = Evidence::new("C20", tier, seed, "exploration");
     ev.rule = "histories: a pool of 2-7 generated inputs (structures over all operators with adversarial operands, and wide programs with up to 11 branches x 3 steps, each with 0-2 options incl. explicit futures_crate_path / custom_joiner) x the 8 configurations; a sequence of 2-39 expansions over the pool in random order with repetition, executed sequentially on one thread, then once more from parse results that were all produced up front (parsing and generating decoupled), and then again concurrently on 1-8 fresh threads started behind a barrier (each thread lexes its own token stream; only strings cross threads). Oracle: table (input, config) -> first output string; every later output, sequential or concurrent, is byte-identical (syn errors and configuration panics are outputs too); every fourth history is additionally expanded in two fresh child processes, once in the given and once in reverse order, and each (input, config) must give the same output in both - state that the first expansion of a process leaves behind would show there. Non-trivial = some (input, config) is expanded at least twice with a different input in between, or the history runs on >= 2 threads; distinct by history content".to_string();
     ev.assumptions = vec!["token-for-token identity is compared on the string form of the output token stream".into()];
-    let cases: u32 = if tier == "quick" { 2_500 } else { 40_000 };
+    let cases: u32 = if tier == "quick" { 2_000 } else { 40_000 };
     let counts = RefCell::new((0u64, 0u64, 0u64, BTreeMap::<String, u64>::new(), Vec::<serde_json::Value>::new(), HashSet::<u64>::new()));
     let stop = RefCell::new(false);
     let mut runner = crate::new_runner(seed, 0x20, cases);
